@@ -390,3 +390,16 @@ def layered_spec(draw, max_incompat=3):
     return {'salt': draw(st.sampled_from([0, 0, 1, 2, 3])), 'nodes': nodes, 'edges': edges,
             'choices': [{'id': ids[i], 'origin': c['origin'], 'opts': c['opts']} for i, c in enumerate(choices)],
             'incompat': incompat, 'start': ['n0'], 'conns': [], 'cons': []}
+
+
+@st.composite
+def conn_dv_spec(draw, max_nodes=6):
+    """Small selection graph + one connection choice with conditional connectors (some scenarios without a valid
+    connection set) + design-variable nodes under conditional nodes"""
+    spec = draw(sel_spec(min_nodes=3, max_nodes=max_nodes, max_incompat=0, p_extra=False))
+    spec = draw(add_conns(spec, max_choices=1, small=True, start_bias=0, allow_grp=False))
+    spec = draw(add_dvs(spec, max_dv=2))
+    if not any(nd['k'] == 'dv' for nd in spec['nodes'].values()):
+        spec['nodes']['dvz'] = {'k': 'dv', 'opts': 2}
+        spec['edges'].append([draw(st.sampled_from(gen_nodes(spec))), 'dvz'])
+    return spec
